@@ -327,6 +327,12 @@ func doCase(r *hx.Run, tc *tcase) (string, string, error) {
 		case "wrap":
 			c, rw := win.Wrap(segs...)
 			ret = fmt.Sprintf("%d,%d", c, rw)
+		case "cursor":
+			vx.HideCursor()
+			win.ShowCursor(a[0], a[1], vaxis.CursorStyle(a[2]))
+			cc, cr, cs, vis := vx.VerifC11CursorNext()
+			ret = fmt.Sprintf("%d,%d,%d,%s", cc, cr, cs, b01(vis))
+			vx.HideCursor()
 		default:
 			panic("bad kind " + tc.kind)
 		}
@@ -452,10 +458,12 @@ func emitAllOps(r *hx.Run, rng *gen.Rng, base tcase, lastW, lastH int) error {
 	for _, c := range []int{-1, 0, lastW - 1, lastW} {
 		for _, rw := range []int{-1, 0, lastH - 1, lastH} {
 			// both primitives at every probe: they have separate code paths
-			for _, kind := range []string{"setcell", "setstyle"} {
+			for _, kind := range []string{"setcell", "setstyle", "cursor"} {
 				tc := base
 				if kind == "setcell" {
 					tc.kind, tc.args = kind, []int{c, rw, int(gid("世")), 2, 8}
+				} else if kind == "cursor" {
+					tc.kind, tc.args = kind, []int{c, rw, (c + rw + 8) % 7}
 				} else {
 					tc.kind, tc.args = kind, []int{c, rw, 8}
 				}
@@ -603,10 +611,12 @@ func run(r *hx.Run) error {
 			base := tcase{uc: caps[0], ew: caps[1], sw: fam.sw, sh: fam.sh, chain: fam.chain}
 			for c := -1; c <= leaf.w+1; c++ {
 				for rw := -1; rw <= leaf.h+1; rw++ {
-					for _, kind := range []string{"setcell", "setstyle"} {
+					for _, kind := range []string{"setcell", "setstyle", "cursor"} {
 						tc := base
 						if kind == "setcell" {
 							tc.kind, tc.args = kind, []int{c, rw, int(gid("y")), 1, 9}
+						} else if kind == "cursor" {
+							tc.kind, tc.args = kind, []int{c, rw, 2}
 						} else {
 							tc.kind, tc.args = kind, []int{c, rw, 9}
 						}
